@@ -256,7 +256,16 @@ func (c *Ctx) RunSkeletons(opt SkelOpts) {
 		}(i)
 	}
 	wg.Wait()
-	// template node coverage
+	// template node coverage (meaningless when some environment could not be expanded at all:
+	// the S-EXPAND / derivation findings are the root cause then)
+	expandFailed := false
+	for i := range outs {
+		for _, o := range outs[i] {
+			if o.err != nil {
+				expandFailed = true
+			}
+		}
+	}
 	all := map[parse.Node]bool{}
 	for _, v := range visited {
 		for n := range v {
@@ -284,14 +293,14 @@ func (c *Ctx) RunSkeletons(opt SkelOpts) {
 			walk(n.List)
 			walk(n.ElseList)
 		case *parse.TextNode, *parse.ActionNode:
-			if !all[n] && opt.Env == nil && !opt.NoExpand {
+			if !all[n] && opt.Env == nil && !opt.NoExpand && !expandFailed {
 				unreached++
 				run.Undecided("S-COVER", fmt.Sprintf("unreached:%s", strings.TrimSpace(truncate(n.String(), 40))), src.Line(int(n.Position())), "no environment of the family reaches this template node: its output is not analysed")
 			}
 		}
 	}
 	walk(src.Tree.Root)
-	if opt.Env == nil && !opt.NoExpand {
+	if opt.Env == nil && !opt.NoExpand && !expandFailed {
 		run.Check("S-COVER", "all-template-nodes-reached", src.Line(0), unreached == 0, "")
 	}
 	mockPos := "pkg/moq/moq.go"
